@@ -3,7 +3,7 @@
    genprops/ContGen.v, the translation of Unit.__lt__ and Continuum.__eq__ / __ne__ / __bool__ from the CURRENT continuum.py (harness/gen_cont.py). *)
 From Coq Require Import String List Arith ZArith Bool Sorted Lia.
 From PGA Require Import Cont.Model Cont.Proofs.
-From PGAprops Require Import ContGen.
+From PGAprops Require Import ContGen ShapesGen.
 Import ListNotations.
 Local Open Scope Z_scope.
 
@@ -112,3 +112,29 @@ Proof.
   unfold continuum_bool_src, cont_bool. induction (anns c) as [|[a l] r IH]; [reflexivity|].
   cbn [forallb existsb snd]. destruct l; cbn; [exact IH|reflexivity].
 Qed.
+
+(* ---------------------------------------------------------------------------------------------------------------------------------
+   Tie to the source (re-proved on every run against genprops/ShapesGen.v, read from the CURRENT sources by harness/gen_shapes.py): the bodies
+   below, as normalised text, are the ones the model follows statement by statement. *)
+Fixpoint lookup_src (k : string) (l : list (string * string)) : option string :=
+  match l with [] => None | (a, b) :: r => if String.eqb k a then Some b else lookup_src k r end.
+(* the container operations the model refines *)
+Theorem C13_src_operations :
+  lookup_src "add" continuum_src = Some "(self, annotator, segment, annotation=None) if segment.duration == 0.0: [raise ValueError]; if annotator not in self._annotations: [self._annotations[annotator] = SortedSet()]; if annotation is not None: [self._categories.add(annotation)]; self._annotations[annotator].add(Unit(segment, annotation)); self.bound_inf = min(self.bound_inf, segment.start); self.bound_sup = max(self.bound_sup, segment.end)"%string /\
+  lookup_src "add_annotator" continuum_src = Some "(self, annotator) if annotator not in self._annotations: [self._annotations[annotator] = SortedSet()]"%string /\
+  lookup_src "remove" continuum_src = Some "(self, annotator, unit) annotations: SortedSet = self._annotations[annotator]; annotations.remove(unit)"%string /\
+  lookup_src "reset_bounds" continuum_src = Some "(self) self.bound_inf = min((next(iter(annotations)).segment.start for annotations in self._annotations.values() if annotations), default=0.0); self.bound_sup = max((unit.segment.end for annotations in self._annotations.values() for unit in annotations), default=0.0)"%string /\
+  lookup_src "merge" continuum_src = Some "(self, continuum, in_place=False) current_cont = self if in_place else self.copy(); for annotator in continuum.annotators: [current_cont.add_annotator(annotator)]; for (annotator, unit) in continuum: [current_cont.add(annotator, unit.segment, unit.annotation)]; if not in_place: [return current_cont]"%string /\
+  lookup_src "copy" continuum_src = Some "(self) continuum = Continuum(self.uri); continuum._annotations = deepcopy(self._annotations); continuum._categories = SortedSet(self._categories); continuum.bound_inf, continuum.bound_sup = (self.bound_inf, self.bound_sup); continuum.best_window_size = self.best_window_size; return continuum"%string /\
+  lookup_src "copy_flush" continuum_src = Some "(self) continuum = Continuum(self.uri); continuum.bound_inf, continuum.bound_sup = (self.bound_inf, self.bound_sup); continuum.best_window_size = self.best_window_size; return continuum"%string /\
+  lookup_src "__iter__" continuum_src = Some "(self) for (annotator, annotations) in self._annotations.items(): [for unit in annotations: [yield (annotator, unit)]]"%string /\
+  lookup_src "iter_annotator" continuum_src = Some "(self, annotator) for unit in self._annotations[annotator]: [yield unit]"%string /\
+  lookup_src "iterunits" continuum_src = Some "(self, annotator) return iter(self._annotations[annotator])"%string /\
+  lookup_src "__getitem__" continuum_src = Some "(self, keys) try: [if isinstance(keys, str): [return deepcopy(self._annotations[keys])] else: [annotator, idx = keys; try: [return deepcopy(self._annotations[annotator][idx])] except IndexError: [raise IndexError]]] except KeyError: [raise KeyError]"%string /\
+  lookup_src "__len__" continuum_src = Some "(self) return len(self._annotations)"%string /\
+  lookup_src "property num_units" continuum_src = Some "(self) return sum((len(units) for units in self._annotations.values()))"%string /\
+  lookup_src "property categories" continuum_src = Some "(self) return self._categories"%string /\
+  lookup_src "property annotators" continuum_src = Some "(self) return SortedSet(self._annotations.keys())"%string /\
+  lookup_src "property bounds" continuum_src = Some "(self) return (self.bound_inf, self.bound_sup)"%string /\
+  lookup_src "property num_annotators" continuum_src = Some "(self) return len(self._annotations)"%string.
+Proof. repeat split. Qed.
